@@ -64,9 +64,13 @@ def _conf(idx, rng):
     return pri_crc, pay_crc, exts
 
 
-def make_bundle(pri_crc, pay_crc, exts, plen, flags=0, frag=None, dest='dtn://far/app', seq=0):
+def make_bundle(pri_crc, pay_crc, exts, plen, flags=0, frag=None, dest='dtn://far/app', seq=0, clockless=False):
     pri = dict(version=7, flags=flags, crc_type=pri_crc, dest=dest, src='dtn://orig/app', report_to='dtn:none',
                create_time=820540000000, seqno=seq, lifetime=3600000, frag_offset=None, total_adu_len=None, crc=None)
+    if clockless:
+        # a source without a clock: creation time 0 (and here also lifetime 0), the age travels in a Bundle Age block
+        pri.update(create_time=0, lifetime=0)
+        exts = [blk for blk in exts if blk['type'] != 7] + [dict(type=7, num=60, flags=bpv7.BLK_REPLICATE, crc_type=pay_crc, data=cw.enc(1000), crc=None)]
     if frag is not None:
         pri['flags'] |= bpv7.FLAG_IS_FRAGMENT
         pri['frag_offset'], pri['total_adu_len'] = frag
@@ -261,7 +265,7 @@ def _collect(problems, detail, violations):
 
 
 def run_case(case):
-    obs = dict(sends=0, fragmenting_sends=0, fragments_checked=0, unchanged_sends_checked=0, impossible_sends=0)
+    obs = dict(sends=0, fragmenting_sends=0, fragments_checked=0, unchanged_sends_checked=0, impossible_sends=0, clockless_sends=0)
     violations = []
     classes = set()
     sample = None
@@ -292,6 +296,14 @@ def run_case(case):
                 one(bundle, full, origin)
                 one(bundle, full - 1, origin)
                 one(bundle, max(1, nonpay - 5), origin)
+            if origin == 'recv':
+                # received from a source without a clock: the fragments must keep that identity
+                for plen in (24, 100, 300):
+                    bundle = make_bundle(pri_crc, pay_crc, exts, plen, seq=plen + 5000, clockless=True)
+                    full = len(bpv7.encode(bundle))
+                    for mtu in (full - plen + 8, full - plen + 40, full - 1, full + 50):
+                        obs['clockless_sends'] += 1
+                        one(bundle, mtu, origin)
             # do-not-fragment and existing fragments are sent unchanged
             one(make_bundle(pri_crc, pay_crc, exts, 200, flags=bpv7.FLAG_NO_FRAGMENT, seq=901), 120, origin)
             one(make_bundle(pri_crc, pay_crc, exts, 200, frag=(10, 500), seq=902), 120, origin)
